@@ -143,6 +143,9 @@ type Stmt struct {
 	// leading zero ("010" is ten), 2 several leading zeros
 	LitStyle int    `json:"lit_style,omitempty"`
 	SQL      string `json:"sql,omitempty"`
+	// OpenFail (USE only): the open of the database's "log" or "data" file
+	// fails once with EMFILE during this statement (a failing system call).
+	OpenFail string `json:"open_fail,omitempty"`
 }
 
 // Directive: something the simulator does at a yield point.
